@@ -744,6 +744,13 @@ struct Matcher<'a> {
     pads: Vec<(usize, usize)>,
     /// a string operand found no NUL in the complete words it could see
     string_ran_out: bool,
+    /// matching stopped because the words ran out while an optional / variadic operand
+    /// could still take more (relevant when the declared extent leaves the stream)
+    more_possible: bool,
+    /// kind of the operand a left-to-right reader would attempt next
+    next_kind: Option<K>,
+    /// the next literal's type is unsupported (reported before a word is read)
+    pending_unsupported: bool,
 }
 
 impl<'a> Matcher<'a> {
@@ -767,13 +774,19 @@ impl<'a> Matcher<'a> {
                 });
                 M::Ok
             }
-            None => M::Fault(Fault::Missing),
+            None => {
+                self.next_kind = Some(kind);
+                M::Fault(Fault::Missing)
+            }
         }
     }
     fn literal(&mut self, type_id: u32) -> M {
         if self.left() == 0 {
             // no word at all for the literal: a left-to-right reading misses the operand
-            // before it can look at the type
+            // before it can look at the type (unless the declared extent promises a word
+            // the stream does not hold: then the unsupported type is reported first)
+            self.next_kind = Some(K::LiteralContextDependentNumber);
+            self.pending_unsupported = self.tc.lit_words(type_id) == LitW::Unsupported;
             return M::Fault(Fault::Missing);
         }
         match self.tc.lit_words(type_id) {
@@ -962,6 +975,11 @@ impl<'a> Matcher<'a> {
                 },
                 Q::ZeroOrOne => {
                     if self.left() == 0 {
+                        self.more_possible = true;
+                        self.next_kind = Some(*k);
+                        if *k == K::LiteralContextDependentNumber {
+                            self.pending_unsupported = rtype.map(|t| self.tc.lit_words(t) == LitW::Unsupported).unwrap_or(false);
+                        }
                         return M::Ok;
                     }
                     match self.kind(*k, rtype, selector, depth) {
@@ -975,6 +993,11 @@ impl<'a> Matcher<'a> {
                             M::Ok => {}
                             o => return o,
                         }
+                    }
+                    self.more_possible = true;
+                    self.next_kind = Some(*k);
+                    if *k == K::PairLiteralIntegerIdRef {
+                        self.pending_unsupported = selector.map(|t| self.tc.lit_words(t) == LitW::Unsupported).unwrap_or(false);
                     }
                 }
             }
@@ -1088,34 +1111,38 @@ pub fn ref_parse(bytes: &[u8]) -> RParse {
             ops: vec![],
             pads: vec![],
             string_ran_out: false,
+            more_possible: false,
+            next_kind: None,
+            pending_unsupported: false,
         };
         let r = m.list(&gi.operands, rtype, 0);
         let mut classes: Vec<Fault> = vec![];
         let mut dont_care = false;
+        // what else a left-to-right reader may meet when the declared extent promises words
+        // the stream does not hold
+        let extra_undecodable = m.pending_unsupported
+            || m.string_ran_out
+            || (m.next_kind == Some(K::LiteralString) && bytes.len() % 4 != 0);
         match r {
             M::DontCare => dont_care = true,
             M::Fault(f) => {
                 classes.push(f);
-                if truncated {
-                    // the extent leaves the stream: a left-to-right reading may
-                    // also run into the end of the stream
-                    classes.push(Fault::Missing);
-                    classes.push(Fault::Surplus);
-                    {
-                        // the string may end in the trailing partial word (1-3 stray bytes)
-                        // and then be found undecodable (invalid UTF-8)
-                        classes.push(Fault::Undecodable);
-                    }
+                if truncated && f == Fault::Missing && extra_undecodable {
+                    classes.push(Fault::Undecodable);
                 }
             }
             M::Ok => {
                 if truncated {
-                    classes.push(Fault::Missing);
-                    classes.push(Fault::Surplus);
-                    // the declared extent promises words the stream does not hold: the next
-                    // operand may be found undecodable before the missing word is noticed
-                    // (unsupported literal type, string ending in 1-3 stray bytes)
-                    classes.push(Fault::Undecodable);
+                    if m.more_possible {
+                        // the reader attempts the next optional / variadic operand: missing
+                        classes.push(Fault::Missing);
+                        if extra_undecodable {
+                            classes.push(Fault::Undecodable);
+                        }
+                    } else {
+                        // every logical operand was read, the word count promises more
+                        classes.push(Fault::Surplus);
+                    }
                 } else if m.pos < opwords.len() {
                     classes.push(Fault::Surplus);
                 }
